@@ -5,7 +5,7 @@ import math
 import numpy as np
 from hypothesis import strategies as st
 
-from vf.core import Decline, Prop, Violation, case_hash, innermost_funsor_frame
+from vf.core import robust_gen, Decline, Prop, Violation, case_hash, innermost_funsor_frame
 from vf.gen import G, REAL_POOL, WVALS, Opts, SeedSource, gauss_leaf
 from vf.lang import Oracle, close, typeof
 
@@ -65,7 +65,7 @@ def gen_case(seed):
 
 
 def cases():
-    return st.integers(0, 2**40).map(gen_case)
+    return st.integers(0, 2**40).map(robust_gen(gen_case))
 
 
 def table_of(f, names_sizes, extra=None):
